@@ -10,12 +10,12 @@ LEVEL = "exploration"
 RULE = ("the C15 configuration space (model tags x rated power x all subsets of refused blocks x battery present/absent, DT and "
         "ES likewise) is run end to end (read_device_info + 3 x read_runtime_data against a simulated inverter that answers with "
         "EXACT-length responses); a hook on ProtocolResponse.read records (position, requested, returned) of every read during "
-        "decoding (every other Modbus/TCP run against firmware that sends a wrong MBAP length field; every fifth configuration with a failing re-run of read_device_info before one more poll): no read may return fewer bytes than requested (= decoding past the end of the fetched window); every short "
+        "decoding (every other Modbus/TCP run against firmware that sends a wrong MBAP length field; every fifth configuration with a failing re-run of read_device_info before one more poll, every tenth with polls in which one block read is refused with a non-address exception code): no read may return fewer bytes than requested (= decoding past the end of the fetched window); every short "
         "read is attributed to the sensor that caused it; distinct = distinct configurations; reads observed are counted")
 ASSUMPTIONS = ["the simulated inverter answers every read with exactly 2 x count payload bytes",
                "values decoded from a refused block's predecessor response would also show as foreign reads in C12/C15; this "
                "check decides only 'no reported value is fabricated from missing bytes'"]
-MUST = ["poll_after_failed_device_info", "tcp_wrong_mbap_length", "configs_run", "reads_observed", "block_running", "block_battery", "block_battery2", "block_meter_basic",
+MUST = ["poll_with_transient_rejection", "poll_after_failed_device_info", "tcp_wrong_mbap_length", "configs_run", "reads_observed", "block_running", "block_battery", "block_battery2", "block_meter_basic",
         "block_meter_ext", "block_meter_ext2", "block_mppt", "block_dt_running", "block_dt_meter", "block_es_runtime"]
 EXHAUSTIVE = {"quick": False, "thorough": True}
 
@@ -46,8 +46,26 @@ def check_config(cfg, part, rl, port=8899, mbap=None, rerun_info=False):
                 res_["short_reads"].append((9,) + entry)
         part.count("poll_after_failed_device_info")
 
+    async def transient_rejections(inv, sim, loop, res_):
+        """history: for one poll each, one block read is refused with an exception OTHER than ILLEGAL DATA ADDRESS (busy, device
+        failure); whatever the poll reports must still be decoded from bytes it fetched"""
+        blocks_read = sorted({(r[2]["reg"], r[2]["count"]) for r in sim.log if r[2]["kind"] == "read" and (r[2]["reg"], r[2]["count"]) in BLOCK_OF})
+        for j, (reg, count) in enumerate(blocks_read):
+            sim.exc_map[(3, reg, count)] = (6, 4, 1)[j % 3]
+            rl.start()
+            try:
+                await inv.read_runtime_data()
+            except g.InverterError:
+                pass
+            for entry in rl.stop():
+                if entry[3] < entry[2]:
+                    res_["short_reads"].append((10 + j,) + entry)
+            del sim.exc_map[(3, reg, count)]
+            part.count("poll_with_transient_rejection")
+        await failing_device_info_then_poll(inv, sim, loop, res_)
+
     res = configs.run_config(cfg, ncalls=3, port=port, readlog=rl, mbap_len_bug=mbap,
-                             extra=failing_device_info_then_poll if rerun_info else None)
+                             extra=(transient_rejections if rerun_info == "transient" else failing_device_info_then_poll) if rerun_info else None)
     run = res["run"]
     part.evaluations += 1
     part.count("configs_run")
@@ -126,7 +144,7 @@ def run_shard(spec):
     for i, cfg in enumerate(allc):
         if i % spec["shards"] != spec["shard"]:
             continue
-        check_config(cfg, part, rl, 8899, rerun_info=(i % 5 == 0))
+        check_config(cfg, part, rl, 8899, rerun_info=("transient" if i % 10 == 5 else i % 5 == 0))
         if cfg["family"] != "ES" and (tier != "quick" or i % 7 == 0):
             # Modbus/TCP; every other run against firmware that sends a wrong MBAP length field (a known GoodWe quirk)
             check_config(cfg, part, rl, 502, mbap=(None, "request", "bytecount")[i % 3])
